@@ -11,6 +11,7 @@
      long cffi_verif_mmap_fail_at           fail the call whose ordinal equals this (-1 never)
      long cffi_verif_mmap_fail_n            ... and the next n-1 calls
      dl log: cffi_verif_dl_n, cffi_verif_dl_log[]   (kind, handle, symbol) per dlsym/dlclose/dlopen
+     void cffi_verif_arm_gate(sem_t *arrived, sem_t *gate)   one-shot gate before this thread's next GIL acquisition
 */
 #ifndef CFFI_VERIF_BACKEND_SHIM_H
 #define CFFI_VERIF_BACKEND_SHIM_H
@@ -109,6 +110,31 @@ static int verif_dlclose(void *h)
     verif_dl_record(3, h, NULL);
     return dlclose(h);
 }
+
+/* ---- gate at the acquisition of the GIL (used by callbacks entered from foreign threads) ----
+   A thread that armed the gate announces its arrival and waits right before it takes the GIL
+   for the first time afterwards: everything a callback entry point does BEFORE it holds the
+   GIL has then happened, nothing after it has.  One-shot and thread-local; inert unless armed. */
+#include <semaphore.h>
+static __thread sem_t *verif_gate_arrived = NULL, *verif_gate_wait = NULL;
+void cffi_verif_arm_gate(void *arrived, void *gate)
+{
+    verif_gate_arrived = (sem_t *)arrived;
+    verif_gate_wait = (sem_t *)gate;
+}
+static void verif_gate(void)
+{
+    if (verif_gate_wait != NULL) {
+        sem_t *g = verif_gate_wait;
+        verif_gate_wait = NULL;
+        sem_post(verif_gate_arrived);
+        sem_wait(g);
+    }
+}
+static void verif_PyEval_RestoreThread(PyThreadState *ts) { verif_gate(); PyEval_RestoreThread(ts); }
+static PyGILState_STATE verif_PyGILState_Ensure(void) { verif_gate(); return PyGILState_Ensure(); }
+#define PyEval_RestoreThread verif_PyEval_RestoreThread
+#define PyGILState_Ensure    verif_PyGILState_Ensure
 
 #define PyThread_acquire_lock verif_acquire_lock
 #define PyThread_release_lock verif_release_lock
